@@ -286,36 +286,38 @@ func (d *PathDecoder) decodeReferenceTargetsForAttribute(attr *hcl.Attribute, at
 
 	ctx := context.Background()
 
-	expr := d.newExpression(attr.Expr, attrSchema.Constraint)
-	if eType, ok := expr.(ReferenceTargetsExpression); ok {
-		var targetCtx *TargetContext
-		if attrSchema.Address != nil {
-			attrAddr, ok := resolveAttributeAddress(attr, attrSchema.Address.Steps)
-			if ok && (attrSchema.Address.AsExprType || attrSchema.Address.AsReference) {
-				targetCtx = &TargetContext{
-					FriendlyName:      attrSchema.Address.FriendlyName,
-					ScopeId:           attrSchema.Address.ScopeId,
-					AsExprType:        attrSchema.Address.AsExprType,
-					AsReference:       attrSchema.Address.AsReference,
-					ParentAddress:     attrAddr,
-					ParentRangePtr:    attr.Range.Ptr(),
-					ParentDefRangePtr: attr.NameRange.Ptr(),
-				}
-			}
-
-			if attrSchema.Address.AsReference {
-				ref := reference.Target{
-					Addr:          attrAddr,
-					ScopeId:       attrSchema.Address.ScopeId,
-					DefRangePtr:   attr.NameRange.Ptr(),
-					RangePtr:      attr.Range.Ptr(),
-					Name:          attrSchema.Address.FriendlyName,
-					NestedTargets: reference.Targets{},
-				}
-				refs = append(refs, ref)
+	var targetCtx *TargetContext
+	if attrSchema.Address != nil {
+		attrAddr, ok := resolveAttributeAddress(attr, attrSchema.Address.Steps)
+		if ok && (attrSchema.Address.AsExprType || attrSchema.Address.AsReference) {
+			targetCtx = &TargetContext{
+				FriendlyName:      attrSchema.Address.FriendlyName,
+				ScopeId:           attrSchema.Address.ScopeId,
+				AsExprType:        attrSchema.Address.AsExprType,
+				AsReference:       attrSchema.Address.AsReference,
+				ParentAddress:     attrAddr,
+				ParentRangePtr:    attr.Range.Ptr(),
+				ParentDefRangePtr: attr.NameRange.Ptr(),
 			}
 		}
 
+		// type-less reference does not depend on the expression
+		// and so it is collected regardless of the constraint
+		if attrSchema.Address.AsReference {
+			ref := reference.Target{
+				Addr:          attrAddr,
+				ScopeId:       attrSchema.Address.ScopeId,
+				DefRangePtr:   attr.NameRange.Ptr(),
+				RangePtr:      attr.Range.Ptr(),
+				Name:          attrSchema.Address.FriendlyName,
+				NestedTargets: reference.Targets{},
+			}
+			refs = append(refs, ref)
+		}
+	}
+
+	expr := d.newExpression(attr.Expr, attrSchema.Constraint)
+	if eType, ok := expr.(ReferenceTargetsExpression); ok {
 		refs = append(refs, eType.ReferenceTargets(ctx, targetCtx)...)
 	}
 
